@@ -292,6 +292,8 @@ class Run:
         class Sched:
             """performs the scheduled actions of this epoch (first callback of the list)"""
             def __call__(cb, solver):
+                # the optimiser that was used during this epoch (the actions below may replace it for the next one)
+                run._epoch_opt_kind = 'closure' if isinstance(solver.optimizer, ClosureOpt) else 'plain'
                 for act in run.sched.get((call, solver.local_epoch), []):
                     if act[0] == 'stop':
                         StopCallback()(solver)
@@ -311,6 +313,7 @@ class Run:
                 if solver.best_nets is not None:
                     if solver.best_nets is not run._last_best:       # a new snapshot was taken during this epoch
                         run._last_best, run._aux_at_snapshot = solver.best_nets, run._aux_bumps
+                        run._best_opt_kind = getattr(run, '_epoch_opt_kind', None)
                     run.aux_obs.append((int(round(solver.best_nets[0].aux.item())), run._aux_at_snapshot, call, solver.local_epoch))
                 # "unfreeze and train" the frozen parameters between epochs (outside the optimiser)
                 with torch.no_grad():
@@ -319,7 +322,7 @@ class Run:
                 run._aux_bumps += 1
                 if solver.best_nets is not None:
                     b = solver.best_nets[0]
-                    run.best_obs.append((b.theta(), int(round(b.seen.item())), 'closure' if isinstance(solver.optimizer, ClosureOpt) else 'plain',
+                    run.best_obs.append((b.theta(), int(round(b.seen.item())), getattr(run, '_best_opt_kind', None),
                                          solver.n_batches['valid'], call, solver.local_epoch))
         with warnings.catch_warnings():
             warnings.simplefilter('ignore')
